@@ -166,7 +166,18 @@ Definition k8 : bool :=
   forallb (fun c => negb (has_impl c "IntoIterator")) (key_carriers ++ hold_carriers) &&
   forallb (fun f => implb (safe_public f && fn_guard_val f) (fn_returns_key f)) fns.
 
-Definition wf_key_known : bool := k1 && k2 && k3 && k4 && k6 && k7 && k8.  (* everything but the known finding F4 *)
+(* K9: whatever owns a ThreadKey — every public struct / enum of the crate with a key among its fields or its variants'
+   fields, computed by the translator from the field types (`key_holders`), not a list kept by hand — is not Send, for any
+   raw lock, and cannot be cloned, copied or defaulted; the hand-kept list of carriers is part of it *)
+Definition all_rules : list autorule := auto_rules ++ holder_rules.
+Definition holder_sendable (c : string) : bool :=
+  existsb (fun rf => impl_auto all_rules rf MSend (TCon c (TPay true true))) all_flags.
+Definition k9 : bool :=
+  forallb (fun c => negb (holder_sendable c) &&
+                    negb (has_impl c "Clone") && negb (has_impl c "Copy") && negb (has_impl c "Default")) key_holders &&
+  forallb (fun c => str_in c key_holders) key_carriers.
+
+Definition wf_key_known : bool := k1 && k2 && k3 && k4 && k6 && k7 && k8 && k9.  (* everything but the known finding F4 *)
 Definition wf_key : bool := wf_key_known && k5.
 
 (* ---------------------------------------------------------------- C15: data confinement, as decidable conditions *)
@@ -266,8 +277,9 @@ Definition c14_offending_fns : list (string * string * string) :=
     (safe_public f && fn_returns_guard f && negb (fn_key_val f)) ||
     (safe_public f && fn_guard_val f && negb (fn_returns_key f))) fns).
 Definition c14_offending_impls : list (string * string) :=
-  filter (fun x => (str_in (fst x) key_carriers || str_in (fst x) hold_carriers) &&
-                   str_in (snd x) ["Clone"; "Copy"; "Default"; "IntoIterator"]) trait_impls.
+  filter (fun x => (str_in (fst x) key_carriers || str_in (fst x) hold_carriers || str_in (fst x) key_holders) &&
+                   str_in (snd x) ["Clone"; "Copy"; "Default"; "IntoIterator"]) trait_impls ++
+  map (fun c => (c, "Send")) (filter holder_sendable key_holders).
 Definition c15_offending_fns : list (string * string * string) :=
   map fn_id (filter (fun f =>
     (str_in (fn_name f) entry_names && negb (fn_unsafe f || negb (fn_public f))) ||
